@@ -358,7 +358,7 @@ func init() {
 					}
 				}
 				// vers contains
-				pool := []string{"vers:npm/>=1.0.0|<2.0.0", "vers:deb/<1.0~rc1", "vers:pypi/>=1.0", "vers:npm/*", "vers:nope/>=1", "npm/>=1.0.0", "vers:npm/>=1.0.0+b|<2.0.0+c", "vers:golang/>=v1.0.0+incompatible", "vers:npm/%3E%3D1.0.0", "1.5.0+b", "vers:npm/>=1.0.0%7C<2.0.0", "1.0.0", "1.5.0", "1.0~beta", "2.0.0", "", " ", "-1", "--", "not a version", "vers:maven/[1.0,2.0]"}
+				pool := []string{"vers:npm/>=1.0.0|<2.0.0", "vers:deb/<1.0~rc1", "vers:pypi/>=1.0", "vers:npm/*", "vers:nope/>=1", "npm/>=1.0.0", "vers:npm/>=1.0.0-RC.1|<2.0.0", "VERS:npm/>=1.0.0", "vers:NPM/>=1.0.0", "1.0.0-rc.1", "vers:npm/>=1.0.0+b|<2.0.0+c", "vers:golang/>=v1.0.0+incompatible", "vers:npm/%3E%3D1.0.0", "1.5.0+b", "vers:npm/>=1.0.0%7C<2.0.0", "1.0.0", "1.5.0", "1.0~beta", "2.0.0", "", " ", "-1", "--", "not a version", "vers:maven/[1.0,2.0]"}
 				n := 0
 				for _, args := range c15ArgVectors(pool, 3) {
 					argv := append([]string{"vers", "contains"}, args...)
